@@ -57,7 +57,10 @@ def op_strategy(max_suggest=3, md=True, optimal=True, early_stop=True,
   ns = st.sampled_from(['', ':a', ':a:b'])
   key = st.sampled_from(['k', 'j'])
   mdval = st.sampled_from(['', 'v', 'w'])
-  item = st.tuples(st.one_of(st.just('study'), tid), ns, key, mdval).map(list)
+  # trial scopes: mostly ids; sometimes something that is no trial id at all
+  item = st.tuples(st.one_of(st.just('study'), tid, tid, tid, tid,
+                             st.sampled_from(['0', '-1', 'abc', '1.5'])),
+                   ns, key, mdval).map(list)
   trial_spec = st.fixed_dictionaries({
       'state': st.sampled_from(['unset', 'REQUESTED', 'ACTIVE', 'SUCCEEDED',
                                 'SUCCEEDED']),
@@ -502,6 +505,9 @@ def _pb_eq(a, b):
 def compare_results(op, real, model):
   """Returns None if equal else a short description of the difference."""
   kind = op[0]
+  if (kind == 'update_md' and model[0] == 'err' and model[1] == BAD_NAME
+      and real == ('ok', True)):
+    return None  # reported through error_details: also a rejection
   if real[0] != model[0]:
     return 'real=%s model=%s' % (_brief(real), _brief(model))
   if real[0] == 'err':
